@@ -19,9 +19,21 @@ import (
 
 // c17Submitter answers per log as scripted: 0 = SCT, 1 = error, 2 = no answer until the request is cancelled.
 type c17Submitter struct {
-	mu      sync.Mutex
-	outcome map[string]int
-	calls   map[string]int
+	mu          sync.Mutex
+	outcome     map[string]int
+	calls       map[string]int
+	answers     int
+	cancelAfter int           // the caller cancels once this many answers were produced
+	trigger     chan struct{} // closed at that moment (nil: the caller never cancels)
+}
+
+func (s *c17Submitter) answered() {
+	s.mu.Lock()
+	defer s.mu.Unlock()
+	s.answers++
+	if s.trigger != nil && s.answers == s.cancelAfter {
+		close(s.trigger)
+	}
 }
 
 func (s *c17Submitter) SubmitToLog(ctx context.Context, logURL string, chain []ct.ASN1Cert, asPreChain bool) (*ct.SignedCertificateTimestamp, error) {
@@ -33,9 +45,11 @@ func (s *c17Submitter) SubmitToLog(ctx context.Context, logURL string, chain []c
 	switch o {
 	case 0:
 		vSched("answer " + logURL) // the log's latency
+		s.answered()
 		return &ct.SignedCertificateTimestamp{Timestamp: uint64(len(logURL))}, nil
 	case 1:
 		vSched("answer " + logURL)
+		s.answered()
 		return nil, errors.New("log unavailable")
 	}
 	<-ctx.Done()
@@ -113,8 +127,9 @@ func Harness_C17_getSCTs() {
 }
 
 // Harness_C17_getSCTsCancel: logs may also hang until their request is cancelled, and the caller
-// cancels at an arbitrary moment: GetSCTs still returns on every interleaving, and a reported
-// success is still a policy-satisfying set from distinct logs.
+// cancels after the k-th log answer was produced (k = 0: right away; the moment relative to the
+// other goroutines is up to the scheduler): GetSCTs still returns on every interleaving, and a
+// reported success is still a policy-satisfying set from distinct logs.
 //
 //verif:opt sched=1 race=1 preempt=1 thorough.preempt=2 maxpaths=400000 thorough.maxpaths=4000000 decisions=6000 steps=20000000 reach=success,failure
 func Harness_C17_getSCTsCancel() {
@@ -127,9 +142,15 @@ func Harness_C17_getSCTsCancel() {
 			sub.outcome[l] = 2
 		}
 	}
+	sub.cancelAfter = vChoice("cancel-after-answers", 3)
+	sub.trigger = make(chan struct{})
+	if sub.cancelAfter == 0 {
+		close(sub.trigger)
+	}
 	ctx, cancel := context.WithCancel(context.Background())
 	done := make(chan struct{})
 	go func() {
+		<-sub.trigger
 		vSched("caller cancels")
 		cancel()
 		close(done)
